@@ -208,6 +208,10 @@ func f11child(mode string) {
 		r = query(srv, api.QueryRequest{Query: "select from nosuch=x limit 10", WaitTimeout: 1, Limit: 10}, false)
 	case "rpc":
 		r = query(srv, api.QueryRequest{Query: "select from nosuch=x limit 10", WaitTimeout: 1, Limit: 10}, true)
+	case "inproc-biglimit": // Limit beyond backend.QueryMaxLimit: clamped by the server, waits all the same
+		r = query(srv, api.QueryRequest{Query: "select from nosuch=x limit 10", WaitTimeout: 1, Limit: 10001}, false)
+	case "rpc-biglimit":
+		r = query(srv, api.QueryRequest{Query: "select from nosuch=x limit 10", WaitTimeout: 1, Limit: 20000}, true)
 	case "control-nowait":
 		r = query(srv, api.QueryRequest{Query: "select from nosuch=x limit 10", WaitTimeout: 0, Limit: 10}, false)
 	case "control-present":
@@ -282,7 +286,7 @@ func sectionF11(cases []f11Case) {
 		res.Dist(sec, c.Mode)
 		var model string
 		switch c.Mode {
-		case "inproc", "rpc":
+		case "inproc", "rpc", "inproc-biglimit", "rpc-biglimit":
 			model = ans[0]
 		case "control-nowait":
 			model = ans[1]
@@ -295,7 +299,7 @@ func sectionF11(cases []f11Case) {
 		}
 		if !returned {
 			finding := ""
-			if c.Mode == "inproc" || c.Mode == "rpc" {
+			if c.Mode == "inproc" || c.Mode == "rpc" || c.Mode == "inproc-biglimit" || c.Mode == "rpc-biglimit" {
 				// class: WaitTimeout > 0 and the FROM condition matches no partition. Fixed by 2ae8d4c: a recurrence is still
 				// tagged, so that the check reports "the defect is back"
 				finding = "F11"
@@ -303,7 +307,7 @@ func sectionF11(cases []f11Case) {
 			res.SpecFail(vh.SpecFailure{Section: "f11", Kind: "hang", Input: c, Impl: line, Spec: "an empty answer after about WaitTimeout seconds",
 				Model: model, ImplEqModel: returned == modelAnswers, Finding: finding,
 				What: "a waiting query over no partitions never returns (the Query loop spins: emptyCursor.WaitNewData returns at once)"})
-		} else if c.Mode == "inproc" || c.Mode == "rpc" {
+		} else if c.Mode == "inproc" || c.Mode == "rpc" || c.Mode == "inproc-biglimit" || c.Mode == "rpc-biglimit" {
 			// it answers: it must not answer before the timeout
 			var n, ms int
 			fmt.Sscanf(line, "returned %d %d", &n, &ms)
@@ -320,11 +324,16 @@ func sectionF11(cases []f11Case) {
 // parked
 
 type parkedCase struct {
-	Parts  int    `json:"parts"`  // partitions under the reader
-	Target int    `json:"target"` // which one is written
-	Order  string `json:"order"`  // permutation of A (append), F (flush confirmed), S (reader released to subscribe); "S" alone = nothing written
-	N      int    `json:"n"`      // events written
+	Parts  int    `json:"parts"`           // partitions under the reader
+	Target int    `json:"target"`          // which one is written
+	Order  string `json:"order"`           // permutation of A (append), F (flush confirmed), S (reader released to subscribe); "S" alone = nothing written
+	N      int    `json:"n"`               // events written
+	Range  bool   `json:"range,omitempty"` // the query has a RANGE clause; the stored events are older than its start
+	Limit  int    `json:"limit,omitempty"` // the request's Limit (0 = 10); values beyond backend.QueryMaxLimit are clamped by the server and must wait all the same
 }
+
+// limits at and around the server's page cap (backend.QueryMaxLimit = 10000): a waiting request must wait for every one of them
+var pageLimits = []int{10, 10000, 10001, 20000}
 
 var (
 	gateMu sync.Mutex
@@ -374,14 +383,26 @@ func runParked(c parkedCase, idx int, sec *vh.Section) {
 		for k := 0; k < stored; k++ {
 			ms = append(ms, fmt.Sprintf("old%d-%d", i, k))
 		}
-		write(srv, tags(i), ms...)
+		if c.Range {
+			writeTs(srv, tags(i), 1000000, ms...)
+		} else {
+			write(srv, tags(i), ms...)
+		}
 	}
 	for i := 0; i < c.Parts; i++ {
 		waitConfirmed(srv, tags(i), stored)
 	}
+	pq := "select from grp=" + grp + " limit 10"
+	if c.Range {
+		pq = "select from grp=" + grp + " range '1000000000000' limit 10"
+	}
 	timeout := 5
 	if c.Order == "S" {
 		timeout = 1
+	}
+	limit := c.Limit
+	if limit == 0 {
+		limit = 10
 	}
 	g := &gate{arrived: make(chan struct{}), release: make(chan struct{})}
 	done := make(chan qres, 1)
@@ -391,7 +412,7 @@ func runParked(c parkedCase, idx int, sec *vh.Section) {
 		gates[goid()] = g
 		gateMu.Unlock()
 		close(ready)
-		r := query(srv, api.QueryRequest{Query: "select from grp=" + grp + " limit 10", Pos: "tail", WaitTimeout: timeout, Limit: 10}, false)
+		r := query(srv, api.QueryRequest{Query: pq, Pos: "tail", WaitTimeout: timeout, Limit: limit}, false)
 		gateMu.Lock()
 		delete(gates, goid())
 		gateMu.Unlock()
@@ -400,6 +421,17 @@ func runParked(c parkedCase, idx int, sec *vh.Section) {
 	<-ready
 	select {
 	case <-g.arrived: // end-of-data seen on every partition, parked before the waiter goroutines start
+	case r := <-done:
+		// the request came back without ever reaching the wait: a reader at the end of its partitions with a wait timeout must wait
+		model, derr := vh.Batch(args.Driver, []string{fmt.Sprintf("queryreq backend %d %d 50 - T", timeout, limit)})
+		if derr != nil {
+			res.Fatal(args.Out, "driver: %v", derr)
+		}
+		res.Eval(sec, fmt.Sprint(c))
+		res.SpecFail(vh.SpecFailure{Section: "parked", Kind: "returned-without-waiting", Input: c, Impl: fmt.Sprintf("%q after %v (err=%v), WaitNewData never called", r.msgs, r.took, r.err),
+			Spec: fmt.Sprintf("the request (WaitTimeout %d, Limit %d) waits at the end of its partitions", timeout, limit), Model: model[0] + " (after its wait timed out)",
+			What: "a reader at the end of its partitions with a wait timeout answered without waiting"})
+		return
 	case <-time.After(5 * time.Second):
 		res.Note("parked: reader did not reach the hook")
 		close(g.release)
@@ -450,6 +482,8 @@ func runParked(c parkedCase, idx int, sec *vh.Section) {
 	res.Eval(sec, fmt.Sprint(c))
 	res.Dist(sec, fmt.Sprintf("order=%s", c.Order))
 	res.Dist(sec, fmt.Sprintf("parts=%d", c.Parts))
+	res.Dist(sec, fmt.Sprintf("limit=%d", limit))
+	res.Dist(sec, fmt.Sprintf("range=%v", c.Range))
 	lat := r.end.Sub(readable)
 	implVerdict := "asleep"
 	if len(r.msgs) > 0 {
@@ -493,7 +527,7 @@ func sectionParked(rng *vh.Rng, corpus []parkedCase) {
 				if o == "S" && (parts == 2 || rep > 1) {
 					continue
 				}
-				cs = append(cs, parkedCase{Parts: parts, Target: rng.Intn(parts), Order: o, N: rng.Range(1, 3)})
+				cs = append(cs, parkedCase{Parts: parts, Target: rng.Intn(parts), Order: o, N: rng.Range(1, 3), Limit: pageLimits[(rep+parts+len(cs))%len(pageLimits)], Range: (rep+len(cs))%3 == 1})
 			}
 		}
 	}
@@ -517,8 +551,9 @@ func sectionParked(rng *vh.Rng, corpus []parkedCase) {
 // nomatch
 
 type nomatchCase struct {
-	Kind string `json:"kind"` // other-partition | where-rejected | where-accepted | where-rejected-then-accepted | range-rejected-then-accepted | big-limit-accepted | big-limit-nothing
-	RPC  bool   `json:"rpc"`
+	Kind  string `json:"kind"` // other-partition | where-rejected | where-accepted | where-rejected-then-accepted | range-rejected-then-accepted | big-limit-accepted | big-limit-nothing
+	RPC   bool   `json:"rpc"`
+	Limit int    `json:"limit,omitempty"` // the request's Limit (0 = 10; the big-limit kinds: 20000)
 }
 
 func runNomatch(c nomatchCase, idx int, sec *vh.Section) {
@@ -530,7 +565,15 @@ func runNomatch(c nomatchCase, idx int, sec *vh.Section) {
 		return
 	}
 	defer srv.Stop()
-	write(srv, "grp=a,part=p0", "old0", "old1 x")
+	// the RANGE kinds: everything stored is far older than the start of the query's time range, so the chunk selector of
+	// the reader (used only with a RANGE clause) has classified the partition's last chunk as "wholly out of range" when
+	// the reader reaches the end; the in-range event is then appended to that very chunk
+	rangeClause := strings.HasPrefix(c.Kind, "rangeclause")
+	if rangeClause {
+		writeTs(srv, "grp=a,part=p0", 1000000, "old0", "old1 x")
+	} else {
+		write(srv, "grp=a,part=p0", "old0", "old1 x")
+	}
 	write(srv, "grp=b,part=p0", "other0")
 	waitConfirmed(srv, "grp=a,part=p0", 2)
 	waitConfirmed(srv, "grp=b,part=p0", 1)
@@ -541,13 +584,23 @@ func runNomatch(c nomatchCase, idx int, sec *vh.Section) {
 	if c.Kind == "range-rejected-then-accepted" {
 		q = "select from grp=a where ts > 5000000000000000000 limit 10"
 	}
+	pos := "tail"
+	if rangeClause {
+		q = "select from grp=a range '1000000000000' limit 10"
+		if c.Kind == "rangeclause-accepted-head" {
+			pos = "head"
+		}
+	}
 	done := make(chan qres, 1)
 	limit := 10
 	if c.Kind == "big-limit-accepted" || c.Kind == "big-limit-nothing" {
 		limit = 20000 // beyond QueryMaxLimit (10000): the server clamps it; the may-sleep test must use the clamped value
 	}
+	if c.Limit > 0 {
+		limit = c.Limit
+	}
 	go func() {
-		done <- query(srv, api.QueryRequest{Query: q, Pos: "tail", WaitTimeout: 1, Limit: limit}, c.RPC)
+		done <- query(srv, api.QueryRequest{Query: q, Pos: pos, WaitTimeout: 1, Limit: limit}, c.RPC)
 	}()
 	time.Sleep(250 * time.Millisecond) // asleep by now
 	var line string
@@ -556,11 +609,11 @@ func runNomatch(c nomatchCase, idx int, sec *vh.Section) {
 	switch c.Kind {
 	case "other-partition":
 		write(srv, "grp=b,part=p0", "other1 x")
-		line = "queryloop 1 10 50 - T"
+		line = fmt.Sprintf("queryloop 1 %d 50 - T", limit)
 	case "where-rejected":
 		// the reader is woken, re-reads, finds nothing it selects and waits again with a fresh timeout
 		write(srv, "grp=a,part=p0", "new-without")
-		line = "queryloop 1 10 50 - D:- T"
+		line = fmt.Sprintf("queryloop 1 %d 50 - D:- T", limit)
 		lo, hi = time.Second, 250*time.Millisecond+time.Second+margin
 	case "where-rejected-then-accepted", "range-rejected-then-accepted":
 		// woken by a write the query does not select, the reader waits again (fresh timeout); the matching event written
@@ -578,19 +631,39 @@ func runNomatch(c nomatchCase, idx int, sec *vh.Section) {
 			write(srv, "grp=a,part=p0", "later x")
 			want = []string{"later x"}
 		}
-		line = "queryloop 1 10 50 - D:- D:7"
+		line = fmt.Sprintf("queryloop 1 %d 50 - D:- D:7", limit)
 		lo, hi = 0, 550*time.Millisecond+margin
+	case "rangeclause-accepted", "rangeclause-accepted-head":
+		// the event's timestamp (now) lies in the range: it must be returned promptly
+		write(srv, "grp=a,part=p0", "in-range")
+		want = []string{"in-range"}
+		line = fmt.Sprintf("queryloop 1 %d 50 - D:7", limit)
+		lo, hi = 0, 250*time.Millisecond+margin
+	case "rangeclause-old-then-accepted":
+		// first an event older than the range (woken, nothing selected, waits again), 300 ms later one inside it
+		writeTs(srv, "grp=a,part=p0", 1500000, "still-old")
+		time.Sleep(300 * time.Millisecond)
+		write(srv, "grp=a,part=p0", "in-range")
+		want = []string{"in-range"}
+		line = fmt.Sprintf("queryloop 1 %d 50 - D:- D:7", limit)
+		lo, hi = 0, 550*time.Millisecond+margin
+	case "rangeclause-nothing":
+		// only an event older than the range is written: the reader answers empty, not before a full timeout after the
+		// wake-up (it waits again with a fresh timeout)
+		writeTs(srv, "grp=a,part=p0", 1500000, "still-old")
+		line = fmt.Sprintf("queryloop 1 %d 50 - D:- T", limit)
+		lo, hi = time.Second, 250*time.Millisecond+time.Second+margin
 	case "big-limit-accepted":
 		write(srv, "grp=a,part=p0", "new-without", "new x")
 		want = []string{"new x"}
-		line = "queryloop 1 10000 50 - D:7"
+		line = fmt.Sprintf("queryloop 1 %d 50 - D:7", limit)
 		lo, hi = 200*time.Millisecond, 250*time.Millisecond+margin
 	case "big-limit-nothing":
-		line = "queryloop 1 10000 50 - T"
+		line = fmt.Sprintf("queryloop 1 %d 50 - T", limit)
 	case "where-accepted":
 		write(srv, "grp=a,part=p0", "new-without", "new x")
 		want = []string{"new x"}
-		line = "queryloop 1 10 50 - D:7"
+		line = fmt.Sprintf("queryloop 1 %d 50 - D:7", limit)
 		lo, hi = 0, 250*time.Millisecond+margin
 	}
 	var r qres
@@ -605,20 +678,23 @@ func runNomatch(c nomatchCase, idx int, sec *vh.Section) {
 	if c.RPC {
 		path = "rpc"
 	}
-	line = strings.Replace(line, "queryloop", "querycall "+path, 1)
+	// the whole request with the Limit the client sent: the model clamps it to the regenerated QueryMaxLimit and compares, in
+	// the wait condition, with what the source of that path compares with
+	line = strings.Replace(line, "queryloop", "queryreq "+path, 1)
 	model, derr := vh.Batch(args.Driver, []string{line})
 	if derr != nil {
 		res.Fatal(args.Out, "driver: %v", derr)
 	}
 	res.Eval(sec, fmt.Sprint(c))
 	res.Dist(sec, c.Kind)
+	res.Dist(sec, fmt.Sprintf("limit=%d", limit))
 	modelEmpty := model[0] == "ok -"
 	if modelEmpty != (len(r.msgs) == 0) {
 		res.Mismatch(vh.Mismatch{Section: "nomatch", Function: "queryLoop: " + line, Input: c, Impl: fmt.Sprintf("%q", r.msgs), Model: model[0]})
 	}
 	if r.err != nil || strings.Join(r.msgs, " ") != strings.Join(want, " ") || r.took < lo || r.took > hi {
 		res.SpecFail(vh.SpecFailure{Section: "nomatch", Kind: "wrong-wait-answer", Input: c, Impl: fmt.Sprintf("%q after %v (err=%v)", r.msgs, r.took, r.err),
-			Spec: fmt.Sprintf("%q between %v and %v", want, lo, hi), Model: model[0],
+			Spec: fmt.Sprintf("%q between %v and %v", want, lo, hi), Model: model[0], ImplEqModel: modelEmpty == (len(r.msgs) == 0),
 			What: "a waiting reader must return exactly the matching events, and empty only when nothing matching was written for the whole timeout"})
 	}
 }
@@ -633,11 +709,23 @@ func sectionNomatch() {
 		reps = 12
 	}
 	for rep := 0; rep < reps; rep++ {
-		for _, k := range []string{"other-partition", "where-rejected", "where-accepted", "where-rejected-then-accepted", "range-rejected-then-accepted", "big-limit-accepted", "big-limit-nothing"} {
+		for _, k := range []string{"other-partition", "where-rejected", "where-accepted", "where-rejected-then-accepted", "range-rejected-then-accepted", "big-limit-accepted", "big-limit-nothing",
+			"rangeclause-accepted", "rangeclause-accepted-head", "rangeclause-old-then-accepted", "rangeclause-nothing"} {
 			for _, rpc := range []bool{false, true} {
 				wg.Add(1)
 				go func(i int, c nomatchCase) { defer wg.Done(); runNomatch(c, i, sec) }(i, nomatchCase{Kind: k, RPC: rpc})
 				i++
+			}
+		}
+		wg.Wait()
+		// the same at and just beyond the page cap (10000 behaves like 10; 10001 is the first clamped value), both paths
+		for _, k := range []string{"other-partition", "where-accepted", "where-rejected-then-accepted"} {
+			for _, lim := range []int{10000, 10001} {
+				for _, rpc := range []bool{false, true} {
+					wg.Add(1)
+					go func(i int, c nomatchCase) { defer wg.Done(); runNomatch(c, i, sec) }(i, nomatchCase{Kind: k, RPC: rpc, Limit: lim})
+					i++
+				}
 			}
 		}
 		if rep%3 == 2 {
@@ -657,6 +745,8 @@ type b2bCase struct {
 	Rounds int   `json:"rounds"`
 	Delays []int `json:"delays_ms"` // write this long after the reader's request started; negative = before the request
 	Seed   int   `json:"seed"`
+	Range  bool  `json:"range,omitempty"` // the query has a RANGE clause and everything stored before the rounds is older than its start
+	Limit  int   `json:"limit,omitempty"` // the Limit of every round's request (0 = 10); the server's NextQueryRequest carries the clamped value, the client keeps asking with its own
 }
 
 func runB2B(c b2bCase, idx int, sec *vh.Section) {
@@ -668,21 +758,34 @@ func runB2B(c b2bCase, idx int, sec *vh.Section) {
 		return
 	}
 	defer srv.Stop()
+	bbq := "select from grp=bb limit 10"
 	for i := 0; i < c.Parts; i++ {
-		write(srv, fmt.Sprintf("grp=bb,part=p%d", i), fmt.Sprintf("old%d", i))
+		if c.Range {
+			writeTs(srv, fmt.Sprintf("grp=bb,part=p%d", i), 1000000, fmt.Sprintf("old%d", i))
+		} else {
+			write(srv, fmt.Sprintf("grp=bb,part=p%d", i), fmt.Sprintf("old%d", i))
+		}
+	}
+	if c.Range {
+		bbq = "select from grp=bb range '1000000000000' limit 10"
 	}
 	for i := 0; i < c.Parts; i++ {
 		waitConfirmed(srv, fmt.Sprintf("grp=bb,part=p%d", i), 1)
 	}
 	perPart := make([]int, c.Parts)
+	limit := c.Limit
+	if limit == 0 {
+		limit = 10
+	}
 	// the cursor's starting point: the end of what is stored now
-	first := query(srv, api.QueryRequest{Query: "select from grp=bb limit 10", Pos: "tail", WaitTimeout: 0, Limit: 10}, c.RPC)
+	first := query(srv, api.QueryRequest{Query: bbq, Pos: "tail", WaitTimeout: 0, Limit: limit}, c.RPC)
 	if first.err != nil || len(first.msgs) != 0 {
 		res.Note("backtoback: first page: %q err=%v", first.msgs, first.err)
 		return
 	}
 	req := first.next
 	req.WaitTimeout = 5
+	req.Limit = limit
 	var all []string
 	var wantAll []string
 	for round := 0; round < c.Rounds; round++ {
@@ -730,13 +833,20 @@ func runB2B(c b2bCase, idx int, sec *vh.Section) {
 			return
 		}
 		req = r.next
+		req.Limit = limit
 	}
 	res.Eval(sec, fmt.Sprint(c))
 	res.Dist(sec, fmt.Sprintf("rpc=%v parts=%d", c.RPC, c.Parts))
+	res.Dist(sec, fmt.Sprintf("limit=%d", limit))
+	res.Dist(sec, fmt.Sprintf("range=%v", c.Range))
 	// MODEL: each round is one wake-up that brings one event
+	path := "backend"
+	if c.RPC {
+		path = "rpc"
+	}
 	lines := []string{}
 	for range wantAll {
-		lines = append(lines, "queryloop 5 10 50 - D:1")
+		lines = append(lines, fmt.Sprintf("queryreq %s 5 %d 50 - D:1", path, limit))
 	}
 	model, derr := vh.Batch(args.Driver, lines)
 	if derr != nil {
@@ -762,7 +872,7 @@ func sectionB2B(rng *vh.Rng) {
 	var wg sync.WaitGroup
 	sem := make(chan struct{}, 12)
 	for i := 0; i < n; i++ {
-		c := b2bCase{RPC: i%2 == 1, Parts: 1 + i%3, Rounds: rng.Range(3, 5), Seed: rng.Intn(3)}
+		c := b2bCase{RPC: i%2 == 1, Parts: 1 + i%3, Rounds: rng.Range(3, 5), Seed: rng.Intn(3), Limit: pageLimits[(i/2)%len(pageLimits)], Range: i%4 >= 2}
 		for k := 0; k < 3; k++ {
 			c.Delays = append(c.Delays, rng.PickI([]int{-1, 30, 60, 120}))
 		}
@@ -999,6 +1109,9 @@ func main() {
 	}
 	var f11s []f11Case
 	var parked []parkedCase
+	var nomatches []nomatchCase
+	var b2bs []b2bCase
+	pipeReplay := false
 	load := func(path string) {
 		var d corpusDoc
 		if err := vh.ReadJSON(path, &d); err != nil {
@@ -1016,6 +1129,18 @@ func main() {
 			if json.Unmarshal(d.Input, &c) == nil {
 				parked = append(parked, c)
 			}
+		case "nomatch":
+			var c nomatchCase
+			if json.Unmarshal(d.Input, &c) == nil {
+				nomatches = append(nomatches, c)
+			}
+		case "backtoback":
+			var c b2bCase
+			if json.Unmarshal(d.Input, &c) == nil && c.Parts > 0 && len(c.Delays) > 0 {
+				b2bs = append(b2bs, c)
+			}
+		case "pipe":
+			pipeReplay = true
 		}
 	}
 	if args.Replay != "" {
@@ -1029,6 +1154,22 @@ func main() {
 			for i, c := range parked {
 				runParked(c, i, sec)
 			}
+		}
+		if len(nomatches) > 0 {
+			sec := res.Section("nomatch", "replay", "replay of one nomatch case")
+			for i, c := range nomatches {
+				runNomatch(c, i, sec)
+			}
+		}
+		if len(b2bs) > 0 {
+			sec := res.Section("backtoback", "replay", "replay of one back-to-back case")
+			for i, c := range b2bs {
+				runB2B(c, i, sec)
+			}
+		}
+		if pipeReplay {
+			d := make(chan struct{})
+			sectionPipe(d)
 		}
 		for _, m := range res.Mismatches {
 			fmt.Printf("MISMATCH %s impl=%s model=%s\n", m.Function, m.Impl, m.Model)
@@ -1045,7 +1186,7 @@ func main() {
 	rng := vh.NewRng(args.Seed)
 	pipeDone := make(chan struct{})
 	go sectionPipe(pipeDone) // needs > 10 s of wall time; only it creates pipes, so the hook parks only its workers
-	f11s = append(f11s, f11Case{Mode: "control-nowait"}, f11Case{Mode: "control-present"})
+	f11s = append(f11s, f11Case{Mode: "control-nowait"}, f11Case{Mode: "control-present"}, f11Case{Mode: "inproc-biglimit"}, f11Case{Mode: "rpc-biglimit"})
 	sectionF11(f11s)
 	sectionContract(rng.Fork("contract"))
 	sectionParked(rng.Fork("parked"), parked)
